@@ -54,6 +54,12 @@ def cases(tier: str, seed: int) -> List[Dict[str, Any]]:
         for dt in ("float16", "bfloat16", "float64"):
             for sr in (2, 5):
                 out.append({"E": E, "M": M, "srbits": sr, "tier": tier, "seed": seed, "dtype": dt})
+    # ambient autograd mode (quantisation inside autograd.Function bodies and evaluation loops runs with grad
+    # mode off) and an input that requires grad: the distribution is the same
+    for E, M in ((4, 3), (5, 2), (2, 1), (3, 4), (5, 10), (7, 0)):
+        for sr in (1, 3, 8):
+            for gm in ("no_grad", "inference_mode", "input_requires_grad"):
+                out.append({"E": E, "M": M, "srbits": sr, "tier": tier, "seed": seed, "grad_mode": gm})
     return out
 
 
@@ -125,6 +131,8 @@ def run_case(case: Dict[str, Any]) -> Dict[str, Any]:
     if nbits != (sr if sr else 23 - M):
         viol.append({"key": "srbits_default", "msg": f"E{E}M{M}: srbits={nbits}"})
     tag = f"srbits={'default' if sr == 0 else ('small' if sr <= 3 else 'mid')}"
+    if case.get("grad_mode"):
+        tag += f"|{case['grad_mode']}"
     real_randint = torch.randint
 
     if case.get("kind") == "indep":
@@ -173,8 +181,15 @@ def run_case(case: Dict[str, Any]) -> Dict[str, Any]:
         return torch.arange(D, dtype=kw.get("dtype", torch.int64))[None, :].expand(n, D).contiguous()
 
     try:
-        with mock.patch.object(torch, "randint", enum):
-            q = fmt.quantise(xr.to(in_dtype))
+        import contextlib
+
+        gm = case.get("grad_mode")
+        ctx = {"no_grad": torch.no_grad, "inference_mode": torch.inference_mode}.get(gm, contextlib.nullcontext)()
+        xin = xr.to(in_dtype)
+        if gm == "input_requires_grad":
+            xin = xin.clone().requires_grad_(True)
+        with mock.patch.object(torch, "randint", enum), ctx:
+            q = fmt.quantise(xin).detach()
         if q.dtype != in_dtype:
             return {"violations": [{"key": f"{tag}|dtype_changed", "msg": f"E{E}M{M}: {in_dtype} -> {q.dtype}"}], "steps": 1}
         q = q.to(torch.float32)
